@@ -718,6 +718,19 @@ Fixpoint all_return (legacy : bool) (h : list op) (t : list step) : bool :=
   | _, _ => false          (* a call is missing from the record *)
   end.
 
+(* per-id tracking (modern): after Remove(id) the id is neither applied nor pending, after Clear nothing is *)
+Fixpoint removed_gone (h : list op) (t : list step) : bool :=
+  match h, t with
+  | o :: h', x :: t' =>
+    (match o, s_ret x with
+     | Remove id, RBool _ => negb (existsb (N.eqb id) (map fst (s_applied x)))
+                             && negb (existsb (N.eqb id) (map fst (s_pending x)))
+     | Clear, RUnit => match s_applied x, s_pending x with [], [] => true | _, _ => false end
+     | _, _ => true
+     end) && removed_gone h' t'
+  | _, _ => true
+  end.
+
 (* the property's predicate on one recorded run *)
 Definition holds_P (proto : N) (hb : bool) (h : list op) (t : list step) : bool :=
   match family_of proto with
@@ -725,6 +738,7 @@ Definition holds_P (proto : N) (hb : bool) (h : list op) (t : list step) : bool 
     all_return false h t
     && forallb (fun id => forallb (fun c => c <=? 1) (outstanding_id id 0 h t)) (ids_of h)
     && unhandled_reported hb h t
+    && removed_gone h t
   | _ =>
     all_return true h t
     && forallb (fun c => c <=? 1) (outstanding 0 h t)
